@@ -12,6 +12,7 @@ def parseOp : String → Option Op
     | ["exec", s, k, py] => do pure (.exec (← s.toNat?) (← k.toNat?) (py == "1"))
     | ["frand", n] => n.toNat?.map .foreignRandom
     | ["fseed", n] => n.toNat?.map .foreignSeed
+    | ["reseed", c, n] => do pure (.reseed (← c.toNat?) (← n.toNat?))
     | _ => none
 
 /-- after every op: which configs share a generator (np, py index per config), generator
